@@ -51,8 +51,9 @@ structure AcctRow where
 def upsertRow (cur : Option AcctRow) (fu : Option Int) (date : Int) (md : Metadata) : AcctRow :=
   match cur with
   | none =>
-    { firstUsage := fu.getD date, insertionDate := date, updatedAt := date, metadata := md,
-      revisions := [(date, md)] }
+    -- `default_metadata || metadata` with no chart defaults: `{} || md`
+    { firstUsage := fu.getD date, insertionDate := date, updatedAt := date, metadata := metaMerge [] md,
+      revisions := [(date, metaMerge [] md)] }
   | some r =>
     let lower := match fu with | some f => decide (f < r.firstUsage) | none => false
     if lower || !metaContains r.metadata md then
